@@ -310,8 +310,22 @@ func c05MutateValue(r *kit.Rand, v any, refs []kit.XRef, budget *int) any {
 		} else {
 			*budget--
 			k := kit.Pick(r, c05TamperKeys)
+			if _, isStreamDict := x["Filter"]; isStreamDict && r.Chance(1, 3) {
+				k = "Filter"
+			}
 			if r.Chance(1, 5) {
 				delete(out, k)
+			} else if k == "Filter" && r.Bool() {
+				// re-chain the existing filter with others (decoders with helper goroutines included)
+				names := []string{"FlateDecode", "LZWDecode", "ASCIIHexDecode", "ASCII85Decode", "RunLengthDecode", "DCTDecode", "CCITTFaxDecode", "JBIG2Decode", "Crypt"}
+				arr := kit.XArray{}
+				if old, ok := x["Filter"].(kit.XName); ok && r.Bool() {
+					arr = append(arr, old)
+				}
+				for i := 1 + r.Intn(3); i > 0; i-- {
+					arr = append(arr, kit.XName(kit.Pick(r, names)))
+				}
+				out[k] = arr
 			} else {
 				out[k] = c05HostileX(r, refs)
 			}
@@ -676,7 +690,21 @@ func c05Crafted(r *kit.Rand) ([]byte, string) {
 	levels := kit.Pick(r, []int{8, 20, 40, 64, 200})
 	fan := kit.Pick(r, []int{2, 2, 3, 16})
 	what := ""
-	switch k := r.Intn(6); k {
+	switch k := r.Intn(7); k {
+	case 6: // a decoder with a helper goroutine followed by filters that cannot work on its output
+		what = "helper-decoder-not-last"
+		jpg := c08JPEG(r, 64+r.Intn(160), 64+r.Intn(160), r.Bool())
+		names := []string{"FlateDecode", "LZWDecode", "ASCIIHexDecode", "ASCII85Decode", "RunLengthDecode", "CCITTFaxDecode", "JBIG2Decode", "DCTDecode"}
+		chain := kit.XArray{kit.XName("DCTDecode")}
+		for i := 1 + r.Intn(2); i > 0; i-- {
+			chain = append(chain, kit.XName(kit.Pick(r, names)))
+		}
+		if r.Chance(1, 4) {
+			chain = append(kit.XArray{kit.XName("ASCIIHexDecode")}, chain...)
+			jpg = []byte(fmt.Sprintf("%x>", jpg))
+		}
+		n := alloc()
+		rev.Actions[n] = kit.XAction{Value: &kit.XStream{Dict: kit.XDict{"Filter": chain, "Subtype": kit.XName("Image")}, Raw: jpg}}
 	case 0, 1: // a name (or number) tree whose every level lists the same child several times
 		key, leafKey := "Names", "Names"
 		what = fmt.Sprintf("name-tree-shared-kids(levels=%d,fan=%d)", levels, fan)
